@@ -834,7 +834,58 @@ func c19Mismatch(p *c19Prog, dir string, crashes []crash, kind int) error {
 		st.count(1, 1)
 		st.class("mismatching_sources_"+strings.ReplaceAll(mutationNames[kind], " ", "_"), 1)
 	}
+	// Two tracebacks as two goroutines of one dump: what cannot be analysed in one goroutine
+	// takes nothing away from the other - its frames in the intact file are rendered as with
+	// the complete tree.
+	if perFileKind(kind) && len(crashes) >= 2 {
+		for c := range crashes {
+			d := (c + 1) % len(crashes)
+			g1, g2 := firstGoroutineText(crashes[c].stderr), firstGoroutineText(crashes[d].stderr)
+			base := crashes[d].base[0]
+			if g1 == nil || g2 == nil || base == nil {
+				continue
+			}
+			nl := bytes.IndexByte(g2, '\n')
+			x := append(append(append([]byte{}, g1...), "\n\ngoroutine 2 [runnable]:"...), g2[nl:]...)
+			x = append(x, '\n')
+			var both *stack.Snapshot
+			if err := guard(func() error {
+				both, _, _ = stack.ScanSnapshot(bytes.NewReader(x), io.Discard, c19OptsNaming(true, false))
+				return nil
+			}); err != nil {
+				return fmt.Errorf("chains %d and %d as two goroutines (sources: %s): %v", c, d, mutationNames[kind], err)
+			}
+			if both == nil || len(both.Goroutines) != 2 || len(both.Goroutines[1].Stack.Calls) != len(base.Goroutines[0].Stack.Calls) {
+				continue
+			}
+			for i := range both.Goroutines[1].Stack.Calls {
+				call := &both.Goroutines[1].Stack.Calls[i]
+				file := filepath.Base(call.RemoteSrcPath)
+				if file != "main.go" && file != "b.go" || filepath.Dir(call.RemoteSrcPath) != dir || goneFile(kind, file) {
+					continue
+				}
+				if want := base.Goroutines[0].Stack.Calls[i].Args.Processed; !reflect.DeepEqual(call.Args.Processed, want) {
+					return fmt.Errorf("chains %d and %d as two goroutines of one dump (sources: %s): frame %s of the second lies in %s, which is unchanged, but is rendered as %q instead of %q", c, d, mutationNames[kind], call.Func.Name, file, call.Args.Processed, want)
+				}
+				st.class("frames_of_the_intact_file_compared_in_a_second_goroutine", 1)
+			}
+		}
+	}
 	return nil
+}
+
+// firstGoroutineText cuts goroutine 1 (header and frames, no trailing blank line) out of a
+// real traceback.
+func firstGoroutineText(stderr []byte) []byte {
+	i := bytes.Index(stderr, []byte("goroutine 1 ["))
+	if i < 0 {
+		return nil
+	}
+	g := bytes.TrimRight(stderr[i:], "\n")
+	if j := bytes.Index(g, []byte("\n\n")); j >= 0 {
+		g = g[:j]
+	}
+	return g
 }
 
 var c19 = Check[c19Prog]{
